@@ -93,7 +93,7 @@ def scheme_case(spec, res):
                 break
     # Gray neighbours
     gopt = GRAY_OPT.get(scheme)
-    gray = prm.get(gopt) if gopt else (scheme == "dqpsk")
+    gray = (prm.get(gopt) if gopt in prm else prm.get("gray_coded", True if scheme == "dpsk" else None)) if gopt else (scheme == "dqpsk")
     if gray and lab is not None and len(lab) == M and M > 2 and not close:
         dm = MC.dmin(pts)
         npairs = 0
